@@ -5,6 +5,7 @@ import (
 	"fmt"
 	"sort"
 	"strconv"
+	"strings"
 
 	"verif/harness/gen/filt"
 )
@@ -32,6 +33,10 @@ type RawRevision struct {
 	ObjStmNum int      `json:"objstm_num"` // object number used for this revision's object stream (if any member)
 	XRefNum   int      `json:"xref_num"`   // object number of the xref stream (stream kind)
 	Flate     bool     `json:"flate,omitempty"`
+	// TightHead: no blank between the last number of the object-stream header and the first object, when that
+	// object starts with a delimiter ("(", "[", "<"): /First is the offset of the first object, nothing requires
+	// white space in front of it (§7.5.7).
+	TightHead bool `json:"tight_head,omitempty"`
 }
 
 // WriteRaw writes the revisions as one file. root is the catalog's object number; size the /Size value.
@@ -89,8 +94,12 @@ func WriteRaw(revs []RawRevision, root NRef, size int, eol string) []byte {
 				data.WriteByte('\n')
 				entries = append(entries, xent{2, rv.ObjStmNum, k, m.Num})
 			}
-			payload := append(head.Bytes(), data.Bytes()...)
-			d := Dict{{"Type", Name("ObjStm")}, {"N", Int(len(members))}, {"First", Int(head.Len())}}
+			hb := head.Bytes()
+			if rv.TightHead && data.Len() > 0 && strings.IndexByte("([<", data.Bytes()[0]) >= 0 {
+				hb = hb[:len(hb)-1]
+			}
+			payload := append(append([]byte{}, hb...), data.Bytes()...)
+			d := Dict{{"Type", Name("ObjStm")}, {"N", Int(len(members))}, {"First", Int(len(hb))}}
 			if rv.Flate {
 				payload = filt.Zlib(payload, 6)
 				d = d.with("Filter", Name("FlateDecode"))
